@@ -465,8 +465,6 @@ def global_replay(run, threads, window=128):
                                                               hexz(e.size), hexz(e.a), hexz(e.b), e.ok & 1))
         lines.append(".")
     lines.append("G %d %x %d" % (run.oc, run.pool0, window))
-    if os.environ.get("RQ_SAVE"):
-        open(os.environ["RQ_SAVE"], "w").write("\n".join(lines) + "\n")
     r = subprocess.run([exe], input="\n".join(lines) + "\n", stdout=subprocess.PIPE, stderr=subprocess.PIPE, text=True, timeout=600)
     if r.returncode != 0:
         raise RuntimeError("replay driver failed: " + r.stderr[-1500:])
@@ -577,13 +575,14 @@ def correspond(ctx):
         alltr += tr
         if run is None:
             break      # the library does not even run a single item: the remaining runs would only hang
-        # whole-run replay on the global model (an order search that fails is repeated on a fresh run of the same scenario:
-        # only a round in which the model refuses an action, or three rounds in a row without an order, count)
+        # whole-run replay on the global model.  The order is found by an untrusted, incomplete search (the recorder's stamps
+        # only bound each operation's place), so a round for which no order is found is repeated on a fresh run of the same
+        # scenario; three rounds in a row without an order are a mismatch, with the first unmatched actions as detail
         if sum(len(t[1]) for t in tr) <= 60000 and not m:
             rp_total += 1
             done_it, rm = replay_round(run, tr, label, st)
             tries = 1
-            while not done_it and not rm and tries < 3:
+            while not done_it and tries < 3:
                 st["replay_order_not_found_retried"] = st.get("replay_order_not_found_retried", 0) + 1
                 text2 = run_harness(mode, seed + 100 * tries, permille, oc, size, idle)
                 run2, f2, m2, tr2 = analyse(text2, label + ":retry%d" % tries, {})
@@ -656,7 +655,13 @@ def correspond(ctx):
                     "(ncpu+k items block in sem_wait until a later item runs); schedule perturbation inside the library's atomic "
                     "operations (0/15/40 percent); every thread's recorded atomic operations on the queue structure, on the pool "
                     "semaphore and on do_next of queued objects are replayed through RootQ.tstep_vis inside Coq (pushers, workers, "
-                    "the monitor's pokes); oracle: every item invoked exactly once, every push instance dequeued at most once and "
+                    "the monitor's pokes); WHOLE-RUN REPLAY: every run of at most 60000 events is in addition replayed, all threads "
+                    "together, as one run of the global model RootQ.gstep (an order of the recorded actions is searched outside "
+                    "Coq under the rule that an operation lies between its thread's previous stamp and its own stamp; the order "
+                    "found is executed strictly by the extracted RootQR.replay: every step must be accepted with the values the "
+                    "library observed), the end state must equal the library's final head / tail / dgq_pending / pool size / "
+                    "dsema_value and satisfy the boolean invariant RootQR.inv_code (proved 0 on reachable states); "
+                    "oracle: every item invoked exactly once, every push instance dequeued at most once and "
                     "only after it was pushed, per-pusher FIFO of dequeues, dequeued item == invoked item, blocked-pool run "
                     "finishes with the pool grown beyond its nominal size; distinct = distinct thread-trace shapes",
             "samples": samples, "distribution": st, "traces_validated_against_impl": len(alltr),
